@@ -146,11 +146,14 @@ func Solve(o *Obligation, cfg *SolverCfg, idx int) {
 		if abs, n := abstractNonlinear(allH); n > 0 {
 			vars = append(vars, variant{"nl-abstracted", (&Script{Asserts: abs, RecDefs: o.Recs}).Render()})
 		}
-		if o.Pre != nil {
+		if o.Pre != nil || (nq > 0 && o.Kind != "cover") {
 			// a model of the weakened problem is only a candidate: it counts when its replay on the
 			// real code shows the two digests equal (covers) / different (excludes)
 			// prefer small counterexamples: every slice length mentioned is at most 2
-			small := append(append([]*Term{}, qfH...), o.Pre.Cand...)
+			small := append([]*Term{}, qfH...)
+			if o.Pre != nil {
+				small = append(small, o.Pre.Cand...)
+			}
 			collect(qfH, func(t *Term) {
 				if t.Op == "sel" && strings.HasSuffix(t.Name, ".len") && t.Sort == SInt {
 					small = append(small, mk("<=", "", SBool, nil, t, IntC(2)))
